@@ -59,22 +59,22 @@ def parse_contract_decls(u):
                        stdout=subprocess.PIPE, stderr=subprocess.PIPE, text=True)
     txt = r.stdout
     out = []
-    for m in re.finditer(r'([A-Za-z_][A-Za-z_0-9 \*]*?)\b([A-Za-z_][A-Za-z_0-9]*)_contract\s*\(([^()]*)\)\s*__CPROVER_', txt):
-        ret, fn, params = m.group(1).strip(), m.group(2), m.group(3).strip()
+    for m in re.finditer(r'([A-Za-z_][A-Za-z_0-9 \*]*?)\b([A-Za-z_][A-Za-z_0-9]*?)_contract(__[A-Za-z_0-9]+)?\s*\(([^()]*)\)\s*__CPROVER_', txt):
+        ret, fn, case, params = m.group(1).strip(), m.group(2), m.group(3) or '', m.group(4).strip()
         ps = []
         if params and params != 'void':
             for p in params.split(','):
                 p = p.strip()
                 mm = re.match(r'^(.*?)([A-Za-z_][A-Za-z_0-9]*)$', p)
                 ps.append((mm.group(1).strip(), mm.group(2)))
-        out.append((ret, fn, ps))
+        out.append((ret, fn, ps, case))
     return out
 
 def auto_harness_text(u):
     """one harness per contract: declare (nondeterministic) arguments, call the function; all set-up is the
     contract's precondition"""
     lines = ['/* generated: one harness per function contract in contracts.c */']
-    for ret, fn, ps in parse_contract_decls(u):
+    for ret, fn, ps, case in parse_contract_decls(u):
         if fn in u.get('no_auto_harness', ()):
             continue
         body = []
@@ -86,7 +86,7 @@ def auto_harness_text(u):
                 body.append('%s a%d;' % (t, k))
             args.append('a%d' % k)
         pre = u.get('auto_harness_pre', '')
-        lines.append('void h_%s(void) { %s %s %s(%s); FRGV_CANARY(); }' % (fn, pre, ' '.join(body), fn, ', '.join(args)))
+        lines.append('void h_%s%s(void) { %s %s %s(%s); FRGV_CANARY(); }' % (fn, case, pre, ' '.join(body), fn, ', '.join(args)))
     return '\n'.join(lines) + '\n'
 
 def unit_obligations(u, tier):
@@ -94,13 +94,13 @@ def unit_obligations(u, tier):
     if u.get('auto_harness'):
         ah = u['auto_harness']
         over = u.get('contract_overrides', {})
-        for ret, fn, ps in parse_contract_decls(u):
+        for ret, fn, ps, case in parse_contract_decls(u):
             if fn in u.get('no_auto_harness', ()):
                 continue
-            o = dict(id='%s.%s' % (u['name'], fn), entry='h_' + fn, enforce=['%s/%s_contract' % (fn, fn)],
-                     function=fn, expect_kinds=['postcondition'])
+            o = dict(id='%s.%s%s' % (u['name'], fn, case), entry='h_' + fn + case,
+                     enforce=['%s/%s_contract%s' % (fn, fn, case)], function=fn, expect_kinds=['postcondition'])
             o.update(ah)
-            o.update(over.get(fn, {}))
+            o.update(over.get(fn + case, over.get(fn, {})))
             obs.append(o)
     gen = getattr(u['module'], 'obligations', None)
     if gen is not None:
@@ -140,6 +140,8 @@ def extract_unit(u, bdir):
             'layout_asserts': ex.layout_asserts, 'extract_s': round(time.time() - t0, 2)}
     # the layout self-check is decided by a native compile of the lowered text
     pre = []
+    for p_ in u.get('first_includes', []):
+        pre = ['-include', os.path.join(u['dir'], p_)] + pre
     for p_ in u.get('pre_includes', []):
         pre += ['-include', os.path.join(u['dir'], p_)]
     chk = subprocess.run(['gcc', '-fsyntax-only', '-std=gnu11', '-I', os.path.join(ROOT, 'stubs'), '-DFRGV_NATIVE', '-w',
@@ -159,7 +161,8 @@ def extract_unit(u, bdir):
                 raise ToolFailure('unit %s: loop %s#%d has no contract' % (u['name'], fn, k))
     json.dump(meta, open(os.path.join(bdir, 'meta.json'), 'w'), indent=1)
     # translation unit: prelude + lowered code + contracts + harness
-    tu = ['#include "frgv_prelude.h"']
+    tu = ['#include "%s"' % os.path.join(u['dir'], f_) for f_ in u.get('first_includes', [])]
+    tu.append('#include "frgv_prelude.h"')
     for pre in u.get('pre_includes', []):
         tu.append('#include "%s"' % os.path.join(u['dir'], pre))
     tu.append('#include "%s"' % os.path.join(bdir, 'unit.c'))
@@ -493,6 +496,9 @@ def check(prop, tier, only=None):
         rc = 2
     # ---- evidence
     write_evidence(prop, tier, seed, results, metas, units, assumptions, time.time() - t0, violations, kf_lines, rc)
+    for r in results:
+        if r['status'] != 'pass' and os.environ.get('FRGV_VERBOSE'):
+            print('  %-8s %s: %s' % (r['status'], r['id'], '; '.join('%s [%s:%s]' % (f['description'][:90], f['source'].get('function'), f['source'].get('line')) for f in r['failed'][:4]) or r.get('detail', '')[:200]))
     np = sum(1 for r in results if r['status'] == 'pass')
     print('%s tier=%s: %d/%d checks passed, %d obligations, %.0fs%s' % (
         prop, tier, np, len(results), sum(r['obligations'] for r in results), time.time() - t0,
